@@ -143,7 +143,16 @@ def dispatch(sim: Any, op: dict) -> Any:
     if kind == "query":
         from zorg.service import swog
 
-        return [swog.execute(zdir, sim.db_url, q) for q in op["queries"]]
+        from .core import _exc_info
+
+        out = []
+        for q in op["queries"]:
+            try:
+                out.append(swog.execute(zdir, sim.db_url, q))
+            except Exception as e:  # judged per query by the caller
+                info = _exc_info(e)
+                out.append({"exc": info["type"], "where": info["where"][-1][1] if info["where"] else "?"})
+        return out
     raise ValueError(f"unknown op {kind}")
 
 
